@@ -231,6 +231,12 @@ func TestVerifC20(t *testing.T) {
 	for _, c := range vfc20.ExhaustiveModule("plain") {
 		run(c, "exhaustive-module")
 	}
+	for _, c := range vfc20.ExhaustiveEmpty("plain") {
+		run(c, "exhaustive-empty-collection")
+	}
+	for _, c := range vfc20.ExhaustiveExpiry("plain") {
+		run(c, "exhaustive-expiry-boundary")
+	}
 	for _, c := range vfc20.ExhaustiveBig("plain") {
 		run(c, "exhaustive-big")
 	}
